@@ -17,6 +17,18 @@
 (*    to it => every decision after the reload equals that of the run in   *)
 (*    which Xm was there from the start (the history before the reload is  *)
 (*    chosen so that both rules decide alike - checked).                   *)
+(* The entry point is a parameter of every load (RuleReuse: Reload(path,   *)
+(* new)): the pair records the entry point of the INITIAL load (p0:        *)
+(* "whole" | "res") and of the reload (path: "whole" | "wholeOther" |      *)
+(* "res") separately, so one history may mix LoadRules and                 *)
+(* LoadRulesOfResource.  Tokens are caller-visible tuples BEFORE the       *)
+(* module's defaulting: `opt' names the concrete spelling of the optional  *)
+(* fields ("unset": left at their zero value, "set": defaults spelled out, *)
+(* ...); both runs of a pair and all their loads send the same spelling,   *)
+(* so the watched rule is field-for-field identical whatever the entry     *)
+(* point does with defaults.  `reached' says (spec: Skipped) whether the   *)
+(* entry point's unchanged-detection lets the reload through to the reuse  *)
+(* algorithm; the driver reports what the code said (ld) for coverage.     *)
 (* A scenario that is not of one of these forms is malformed: TLC stops    *)
 (* there and the check reports a machinery error, never a violation.       *)
 (***************************************************************************)
@@ -26,7 +38,7 @@ Trace == ndJsonDeserialize("trace.ndjson")
 
 VARIABLES l, g, failed, parted
 tvars == <<l, g, failed, parted, P, Sh, n, ok, kept, h>>
-Unused == UNCHANGED <<P, Sh, n, ok, kept, h>>
+Unused == UNCHANGED <<ok, h>>
 
 Ev == Trace[l]
 
@@ -39,19 +51,27 @@ IsEvent(op) == l <= Len(Trace) /\ Ev.op = op /\ l' = l + 1
 
 PosOf(s, t) == NthPos(s, t, 1)
 \* the scenario is one the statement speaks about
-WellFormed(e) ==
+WellFormedLists(e) ==
     \/ e.mode = "erase" /\ Unchanged(e.old, e.new, "X")
     \/ /\ e.mode = "fromstart"
        /\ Count(e.old, "X") = 1 /\ Count(e.new, "Xm") = 1 /\ Count(e.new, "X") = 0 /\ Count(e.old, "Xm") = 0
        /\ e.stat["X"] # "none"
        /\ LET m == ReuseStatement(e.stat, e.old, e.new) IN m[PosOf(e.new, "Xm")].s = PosOf(e.old, "X")
+WellFormed(e) ==
+    /\ e.p0 \in {"whole", "res"} /\ e.path \in Paths /\ Paths \subseteq AllPaths
+    /\ WellFormedLists(e)
 
 TNew ==
     /\ IsEvent("new")
     /\ WellFormed(Ev)
     /\ g' = [tr |-> Ev.tr, kind |-> Ev.kind, mod |-> Ev.mod, mode |-> Ev.mode, old |-> Ev.old, new |-> Ev.new, pos |-> Ev.pos,
-             path |-> Ev.path, relaxed |-> (Ev.mode = "erase" /\ Duplicated(Ev.old, Ev.new, "X"))]
+             stat |-> Ev.stat, p0 |-> Ev.p0, path |-> Ev.path, opt |-> Ev.opt, reached |-> ~Skipped(Ev.path, Ev.old, Ev.new),
+             relaxed |-> (Ev.mode = "erase" /\ Duplicated(Ev.old, Ev.new, "X"))]
     /\ failed' = FALSE /\ parted' = FALSE
+    \* the design-level state of the pair: primary = run A, shadow = run B, both after the initial load through p0
+    /\ P' = LoadSC(Reuse, Ev.stat, << >>, Ev.p0, Ev.old)
+    /\ Sh' = LoadSC(Reuse, Ev.stat, << >>, Ev.p0, IF Ev.mode = "erase" THEN Ev.old ELSE Ev.new)
+    /\ kept' = Count(Ev.old, Watched) /\ n' = 0
     /\ Unused
 
 \* A decided no more generously than B
@@ -59,19 +79,30 @@ NotMoreGenerous(a, b) == (a.d = "B" /\ b.d = "P") \/ (a.d = "P" /\ b.d = "P" /\ 
 
 TStep ==
     /\ IsEvent("step")
+    \* replay on the design-level state: the recorded reload is RuleReuse's load of g.new through entry point g.path
+    \* on the primary (the shadow skips it), every step is one traffic event.  The design under test (constants of the
+    \* cfg: Reuse = "statement", Defaulting = {}) must make this reload invisible for the watched rule whatever entry
+    \* points the history mixes - otherwise the scenario is not one the spec speaks about (malformed, TLC stops).
+    /\ LET rl == (Ev.i = g.pos + 1)
+           p1 == Aged(g.stat, IF rl THEN LoadSC(Reuse, g.stat, P, g.path, g.new) ELSE P)
+           s1 == Aged(g.stat, Sh)
+           k1 == IF rl THEN Min2(kept, Count(g.new, Watched)) ELSE kept
+       IN  /\ P' = p1 /\ Sh' = s1 /\ kept' = k1 /\ n' = n + 1
+           /\ g.mode = "erase" => InvisibleOn(p1, s1, k1)
     /\ LET a == Ev.a  b == Ev.b IN
        \* fromstart: before the reload both rules must decide alike, or the scenario proves nothing
        /\ (g.mode = "fromstart" /\ Ev.i <= g.pos) => a = b
        /\ parted' = (parted \/ (g.relaxed /\ a # b))
        /\ Judge(parted \/ a = b \/ (g.relaxed /\ NotMoreGenerous(a, b)),
-                [kind |-> g.kind, mod |-> g.mod, mode |-> g.mode, old |-> g.old, new |-> g.new, pos |-> g.pos, path |-> g.path,
-                 step |-> Ev.i, a |-> a, b |-> b])
+                [kind |-> g.kind, mod |-> g.mod, mode |-> g.mode, old |-> g.old, new |-> g.new, pos |-> g.pos, p0 |-> g.p0, path |-> g.path, opt |-> g.opt,
+                 reached |-> g.reached, step |-> Ev.i, a |-> a, b |-> b])
     /\ UNCHANGED g
     /\ Unused
 
 TInit ==
     /\ l = 1 /\ failed = FALSE /\ parted = FALSE
-    /\ g = [tr |-> 0, kind |-> "", mod |-> "", mode |-> "", old |-> << >>, new |-> << >>, pos |-> 0, path |-> "", relaxed |-> FALSE]
+    /\ g = [tr |-> 0, kind |-> "", mod |-> "", mode |-> "", old |-> << >>, new |-> << >>, pos |-> 0, stat |-> << >>, p0 |-> "", path |-> "", opt |-> "",
+            reached |-> FALSE, relaxed |-> FALSE]
     /\ P = << >> /\ Sh = << >> /\ n = 0 /\ ok = TRUE /\ kept = 0 /\ h = << >>
 TNext == TNew \/ TStep
 TSpec == TInit /\ [][TNext]_tvars
